@@ -65,6 +65,12 @@ func (l *lane) runScSrv(tc *tcase, c *acase, out emitter) {
 	sprm := prm
 	sprm.dstHost, sprm.dstPort, sprm.payload = ip4(l.srvIP), scSrvPort, spl
 	sb := scBytes(l.rng, &sg, sprm)
+	bst, br, died := l.burstBefore(tc, "scsrv", g.Bu, l.burstSCION(b, port))
+	if died {
+		out.Emit(br)
+		return
+	}
+	r.Bsent, r.Bval, r.Bans, r.Baddr, r.Bms = int(bst.sent), int(bst.val), int(bst.ans), int(bst.addr), bst.ms
 	conn.Write(b)
 	conn.Write(sb)
 	var gotC, gotS bool
@@ -206,7 +212,8 @@ func (l *lane) runScCli(tc *tcase, c *acase, out emitter) {
 	// MeasureClockOffsetSCION gives up at its deadline even when the goroutine in the receive path never
 	// comes back: a child that keeps burning CPU after the call has returned has a receive loop that
 	// stopped making progress
-	if state == "returned" && !res.Ok && l.cli != nil && !l.cli.exited() &&
+	// (a short first look -- most children are idle --, then the two long ones that decide)
+	if state == "returned" && !res.Ok && l.cli != nil && !l.cli.exited() && l.cli.spinning(40*time.Millisecond) &&
 		l.cli.spinning(100*time.Millisecond) && l.cli.spinning(100*time.Millisecond) {
 		dump := l.cli.dumpAndKill()
 		l.cli = nil
